@@ -1,7 +1,398 @@
 /-
-  Property C07 — theorems about QEModel.C07 (stub; to be filled in).
+  Property C07 — LQ control: theorems about the definitions of `QEModel/C07.lean` that the
+  driver `qedriver_c07` executes, read as Mathlib matrices through `toMat`
+  (`toMat n m A i j = A.get i j`). `scipy.linalg.solve` enters through the hypothesis
+  `SolSpec` (a returned solution solves an invertible system; LAPACK is not modelled).
+  `qf M x = x'Mx`, `bf u N x = u'Nx`, `stage R Q N x u = x'Rx + u'Qu + 2u'Nx`.
+
+  What is proved (all sizes `n`, `k`, `j`; every horizon `T`):
+  * `lq_update_completes_square`, `lq_update_one_step_minimum`: one call of `update_values` is the exact
+    one-period minimisation (matrix completion of the square with cross term and discount).
+  * `lq_d_recursion`, `lq_update_bellman`: the constant `d` accounts exactly for the expected discounted
+    noise cost under any finitely supported shock law with mean 0 and second moment `I`.
+  * `finite_horizon_exact`: by induction on `T`, the backward recursion run by `compute_sequence` returns the
+    minimum over all control sequences of the T-period programme (and `P` stays symmetric PSD).
+  * `policy_order`, `policy_order_inf`: list bookkeeping of `compute_sequence` — the policy applied at time `t`
+    is the one of backward step `T - t`; law of motion of the produced paths (any scalar type, also `Float`).
+  * `stationary_is_fixed_point`: a solution of the Riccati equation of the sqrt(beta)-scaled system makes
+    `(P, F, d)` a fixed point of `update_values`.
+  * `rblq_b_operator_is_lq_update`: `RBLQ.b_operator` is `update_values` of the problem without cross term.
+  What is not proved (decided by the spec run of harness/c07.py only): infinite-horizon optimality among all
+  linear rules (needs stability and limits), convergence of the Riccati / nnash / Markov-jump iterations,
+  RBLQ -> LQ as theta grows, the nnash best-response and identical-regime statements, optimality over
+  state-feedback (closed-loop) policies under noise beyond the one-step Bellman identity.
 -/
-import QEModel.C07
+import QEProofs.Lemmas.C07Bridge
+import QEProofs.Lemmas.C07Seq
+import QEProofs.Lemmas.C07Horizon
+import QEProofs.Lemmas.C07Noise
+import QEProofs.Lemmas.C07Rblq
+
 namespace QE.C07
+open QE QE.MatAlg QE.C06 Finset Matrix
+
+section update
+variable {K : Type} [CommRing K] {n k j : ℕ}
+
+/-- **lq_update_completes_square** (all sizes `n`, `k`, with cross term and discounting).
+    If `update_values` (lines 184-198) succeeds from the symmetric value matrix `P`, then for every
+    state `x` and every control `u`
+    `x'Rx + u'Qu + 2u'Nx + β (Ax+Bu)'P(Ax+Bu) = x'P_new x + (u+Fx)' S1 (u+Fx)`,
+    `S1 = Q + βB'PB` (line 188), `F` and `P_new` the new policy and value matrix. -/
+theorem lq_update_completes_square (sol : M K → M K → Option (M K)) (hsol : SolSpec sol k)
+    (lq : LQ K) (h : LQDim lq n k j) (v v' : Val K) (F : M K) (hP : Dim v.P n n)
+    (hPs : (toMat n n v.P)ᵀ = toMat n n v.P) (hQs : (toMat k k lq.Q)ᵀ = toMat k k lq.Q)
+    (hu : lqUpdate sol lq v = some (F, v')) (x : Fin n → K) (u : Fin k → K) :
+    stage (toMat n n lq.R) (toMat k k lq.Q) (toMat k n lq.N) x u
+        + lq.beta * qf (toMat n n v.P) (toMat n n lq.A *ᵥ x + toMat n k lq.B *ᵥ u)
+      = qf (toMat n n v'.P) x + qf (toMat k k (lqS1 lq v.P)) (u + toMat k n F *ᵥ x) := by
+  obtain ⟨_, _, hF, hP', _, _⟩ := lqUpdate_toMat sol hsol h hP hu
+  rw [hP', lqS3_toMat h hP]
+  exact complete_square_qf _ _ _ _ _ _ _ _ _ _ x u hPs hQs (lqS1_toMat h hP) (lqS2_toMat h hP) hF
+
+/-- **lq_d_recursion** (line 196). For every finitely supported shock distribution (`p_s`, `w_s`) with
+    `Σ p_s = 1`, mean zero and second moment `Σ p_s w_s w_s' = I` (the assumption `E ww' = I` of the class
+    docstring, entered as a hypothesis on the moments — no probability theory), the expected discounted
+    continuation value from the post-decision state `y = Ax + Bu` is
+    `β Σ_s p_s ((y + Cw_s)'P(y + Cw_s) + d) = β y'Py + d_new` with `d_new = β (d + tr(P C C'))` the constant
+    computed by `update_values`. -/
+theorem lq_d_recursion {ι : Type} [Fintype ι] (sol : M K → M K → Option (M K)) (hsol : SolSpec sol k)
+    (lq : LQ K) (h : LQDim lq n k j) (v v' : Val K) (F : M K) (hP : Dim v.P n n)
+    (hu : lqUpdate sol lq v = some (F, v'))
+    (p : ι → K) (w : ι → Fin j → K)
+    (hp : ∑ s, p s = 1) (hmean : ∑ s, p s • colM (w s) = 0)
+    (hcov : ∑ s, p s • (colM (w s) * (colM (w s))ᵀ) = 1) (y : Fin n → K) :
+    lq.beta * ∑ s, p s * (qf (toMat n n v.P) (y + toMat n j lq.C *ᵥ w s) + v.d)
+      = lq.beta * qf (toMat n n v.P) y + v'.d := by
+  obtain ⟨_, _, _, _, hd, _⟩ := lqUpdate_toMat sol hsol h hP hu
+  have := expect_qf p w (toMat n n v.P) (toMat n j lq.C) y hp hmean hcov
+  simp only [mul_add, Finset.sum_add_distrib]
+  rw [← mul_add, this, ← Finset.sum_mul, hp, hd]
+  ring
+
+/-- **lq_update_bellman**: the stochastic one-period identity. With the shock distribution of
+    `lq_d_recursion`, for every state `x` and control `u`
+    `x'Rx + u'Qu + 2u'Nx + β E[V(Ax + Bu + Cw)] = V_new(x) + (u+Fx)'S1(u+Fx)`,
+    where `V(z) = z'Pz + d`, `V_new(x) = x'P_new x + d_new`. -/
+theorem lq_update_bellman {ι : Type} [Fintype ι] (sol : M K → M K → Option (M K)) (hsol : SolSpec sol k)
+    (lq : LQ K) (h : LQDim lq n k j) (v v' : Val K) (F : M K) (hP : Dim v.P n n)
+    (hPs : (toMat n n v.P)ᵀ = toMat n n v.P) (hQs : (toMat k k lq.Q)ᵀ = toMat k k lq.Q)
+    (hu : lqUpdate sol lq v = some (F, v'))
+    (p : ι → K) (w : ι → Fin j → K)
+    (hp : ∑ s, p s = 1) (hmean : ∑ s, p s • colM (w s) = 0)
+    (hcov : ∑ s, p s • (colM (w s) * (colM (w s))ᵀ) = 1) (x : Fin n → K) (u : Fin k → K) :
+    stage (toMat n n lq.R) (toMat k k lq.Q) (toMat k n lq.N) x u
+        + lq.beta * ∑ s, p s * (qf (toMat n n v.P)
+            (toMat n n lq.A *ᵥ x + toMat n k lq.B *ᵥ u + toMat n j lq.C *ᵥ w s) + v.d)
+      = qf (toMat n n v'.P) x + v'.d + qf (toMat k k (lqS1 lq v.P)) (u + toMat k n F *ᵥ x) := by
+  rw [lq_d_recursion sol hsol lq h v v' F hP hu p w hp hmean hcov, ← add_assoc,
+    lq_update_completes_square sol hsol lq h v v' F hP hPs hQs hu x u]
+  ring
+
+/-- non-vacuity of the moment hypotheses: the two-point shock `w = ±1` with weights `1/2`. -/
+example : (∑ s : Fin 2, (fun _ => (1 / 2 : ℚ)) s = 1) ∧
+    (∑ s : Fin 2, (1 / 2 : ℚ) • colM (fun _ : Fin 1 => if s = 0 then (1 : ℚ) else -1) = 0) ∧
+    (∑ s : Fin 2, (1 / 2 : ℚ) • (colM (fun _ : Fin 1 => if s = 0 then (1 : ℚ) else -1)
+        * (colM (fun _ : Fin 1 => if s = 0 then (1 : ℚ) else -1))ᵀ) = 1) := by
+  refine ⟨by norm_num [Fin.sum_univ_two], ?_, ?_⟩
+  · ext i a; simp [Fin.sum_univ_two, colM]
+  · ext i a
+    have := Fin.eq_zero i; have := Fin.eq_zero a; subst_vars
+    simp [Fin.sum_univ_two, colM, Matrix.mul_apply]
+    norm_num
+
+end update
+
+section ordered
+variable {K : Type} [Field K] [LinearOrder K] [IsStrictOrderedRing K] {n k j : ℕ}
+
+/-- **lq_update_one_step_minimum.** If moreover `S1 = Q + βB'PB` is positive semidefinite, the new
+    value `x'P_new x` is the exact minimum over `u` of the one-period problem
+    `x'Rx + u'Qu + 2u'Nx + β (Ax+Bu)'P(Ax+Bu)`, attained at `u = -Fx`. -/
+theorem lq_update_one_step_minimum (sol : M K → M K → Option (M K)) (hsol : SolSpec sol k)
+    (lq : LQ K) (h : LQDim lq n k j) (v v' : Val K) (F : M K) (hP : Dim v.P n n)
+    (hPs : (toMat n n v.P)ᵀ = toMat n n v.P) (hQs : (toMat k k lq.Q)ᵀ = toMat k k lq.Q)
+    (hpsd : ∀ w : Fin k → K, 0 ≤ qf (toMat k k (lqS1 lq v.P)) w)
+    (hu : lqUpdate sol lq v = some (F, v')) (x : Fin n → K) :
+    (∀ u : Fin k → K, qf (toMat n n v'.P) x ≤
+        stage (toMat n n lq.R) (toMat k k lq.Q) (toMat k n lq.N) x u
+          + lq.beta * qf (toMat n n v.P) (toMat n n lq.A *ᵥ x + toMat n k lq.B *ᵥ u)) ∧
+    qf (toMat n n v'.P) x =
+        stage (toMat n n lq.R) (toMat k k lq.Q) (toMat k n lq.N) x (-(toMat k n F *ᵥ x))
+          + lq.beta * qf (toMat n n v.P)
+              (toMat n n lq.A *ᵥ x + toMat n k lq.B *ᵥ (-(toMat k n F *ᵥ x))) := by
+  constructor
+  · intro u
+    rw [lq_update_completes_square sol hsol lq h v v' F hP hPs hQs hu x u]
+    exact le_add_of_nonneg_right (hpsd _)
+  · rw [lq_update_completes_square sol hsol lq h v v' F hP hPs hQs hu x (-(toMat k n F *ᵥ x))]
+    have : (-(toMat k n F *ᵥ x) + toMat k n F *ᵥ x) = 0 := by simp
+    rw [this, qf_zero, add_zero]
+
+/-- non-vacuity: the scalar problem `Q=R=A=B=1, N=1/2, β=1/2` from `P=1`: the update runs with the
+    exact 1×1 solver and gives `F = 2/3`, `P_new = 5/6`. -/
+example : (lqUpdate sol1 (⟨M.ofRows [[1]], M.ofRows [[1]], M.ofRows [[1]], M.ofRows [[1]], M.ofRows [[1]],
+    M.ofRows [[1 / 2]], 1 / 2⟩ : LQ ℚ) ⟨M.ofRows [[1]], 0⟩).map (fun r => (r.1.get 0 0, r.2.P.get 0 0, r.2.d))
+    = some (2 / 3, 5 / 6, 1 / 2) := by decide +kernel
+
+end ordered
+
+section horizon
+variable {K : Type} [Field K] [LinearOrder K] [IsStrictOrderedRing K] {n k j : ℕ}
+
+/-- **finite_horizon_exact** (all sizes `n`, `k`, every horizon `T`, by induction on `T`).
+    Let the one-period loss be non-negative (`x'Rx + u'Qu + 2u'Nx ≥ 0` for all `x`, `u`), `Q`, `R`, `Rf`
+    symmetric, `Rf` positive semidefinite, `β ≥ 0`. If the `T` calls of `update_values` made by
+    `compute_sequence` (`lqBackward`, lines 320-324) succeed from `(Rf, 0)` and end with the value matrix
+    `P`, then for **every** initial state `x` and **every** control sequence `u_0 … u_{T-1}`
+    `x'Px ≤ Σ_{t<T} β^t (x_t'Rx_t + u_t'Qu_t + 2u_t'Nx_t) + β^T x_T'Rf x_T` (`cost`, deterministic law of
+    motion `x_{t+1} = Ax_t + Bu_t`), and some control sequence attains `x'Px`: the recursion returns the
+    exact minimum of the T-period quadratic programme. `P` is symmetric positive semidefinite. -/
+theorem finite_horizon_exact (sol : M K → M K → Option (M K)) (hsol : SolSpec sol k)
+    (lq : LQ K) (h : LQDim lq n k j) (Rf : M K) (hRf : Dim Rf n n)
+    (hRfs : (toMat n n Rf)ᵀ = toMat n n Rf) (hRfp : ∀ x : Fin n → K, 0 ≤ qf (toMat n n Rf) x)
+    (hQs : (toMat k k lq.Q)ᵀ = toMat k k lq.Q) (hRs : (toMat n n lq.R)ᵀ = toMat n n lq.R)
+    (hβ : 0 ≤ lq.beta)
+    (hstage : ∀ x u, 0 ≤ stage (toMat n n lq.R) (toMat k k lq.Q) (toMat k n lq.N) x u)
+    (T : ℕ) (pol : List (M K)) (vT : Val K)
+    (hb : lqBackward sol lq T ⟨Rf, 0⟩ [] = some (pol, vT)) :
+    (∀ (x : Fin n → K) (us : List (Fin k → K)), us.length = T →
+      qf (toMat n n vT.P) x ≤ cost (toMat n n lq.R) (toMat n n lq.A) (toMat n n Rf) (toMat k k lq.Q)
+        (toMat k n lq.N) (toMat n k lq.B) lq.beta us x) ∧
+    (∀ x : Fin n → K, ∃ us : List (Fin k → K), us.length = T ∧
+      cost (toMat n n lq.R) (toMat n n lq.A) (toMat n n Rf) (toMat k k lq.Q)
+        (toMat k n lq.N) (toMat n k lq.B) lq.beta us x = qf (toMat n n vT.P) x) ∧
+    (toMat n n vT.P)ᵀ = toMat n n vT.P ∧ ∀ x : Fin n → K, 0 ≤ qf (toMat n n vT.P) x := by
+  obtain ⟨hv, _⟩ := lqBackward_spec sol lq T _ _ _ _ hb
+  obtain ⟨g, hlow, hatt⟩ := horizon_induction sol hsol h hQs hRs hβ hstage ⟨Rf, 0⟩ ⟨hRf, hRfs, hRfp⟩ T vT hv
+  exact ⟨hlow, hatt, g.symm, g.psd⟩
+
+/-- non-vacuity of the hypotheses on the scalar instance `Q = R = A = B = Rf = 1`, `N = 0`, `β = 1/2`,
+    `T = 3` with the exact 1×1 solver: the loss `x² + u²` is non-negative and the recursion runs. -/
+example : ∀ x u : Fin 1 → ℚ, 0 ≤ stage (toMat 1 1 (M.ofRows [[(1 : ℚ)]])) (toMat 1 1 (M.ofRows [[(1 : ℚ)]]))
+    (toMat 1 1 (M.ofRows [[(0 : ℚ)]])) x u := by
+  intro x u
+  have e1 : toMat 1 1 (M.ofRows [[(1 : ℚ)]]) = Matrix.of fun _ _ => 1 := by
+    ext i j; have := Fin.eq_zero i; have := Fin.eq_zero j; subst_vars; rfl
+  have e0 : toMat 1 1 (M.ofRows [[(0 : ℚ)]]) = Matrix.of fun _ _ => 0 := by
+    ext i j; have := Fin.eq_zero i; have := Fin.eq_zero j; subst_vars; rfl
+  rw [e1, e0]
+  have q : ∀ y : Fin 1 → ℚ, qf (Matrix.of fun _ _ => (1 : ℚ)) y = y 0 * y 0 := by
+    intro y; rw [qf_eq_sum]; simp
+  have b0 : bf u (Matrix.of fun _ _ => (0 : ℚ)) x = 0 := by
+    simp [bf, Matrix.mul_apply]
+  unfold stage
+  rw [q, q, b0]
+  nlinarith [mul_self_nonneg (x 0), mul_self_nonneg (u 0)]
+
+example : (lqBackward sol1 (⟨M.ofRows [[1]], M.ofRows [[1]], M.ofRows [[1]], M.ofRows [[1]], M.ofRows [[1]],
+    M.ofRows [[0]], 1 / 2⟩ : LQ ℚ) 3 ⟨M.ofRows [[1]], 0⟩ []).isSome = true := by decide +kernel
+
+end horizon
+
+section rblq
+variable {K : Type} [CommRing K] {n k j : ℕ}
+
+/-- **rblq_b_operator_is_lq_update** (all sizes). `RBLQ.b_operator(P)` (_robustlq.py 144-152, with a control)
+    returns the same policy and the same value matrix as `LQ.update_values` of the problem
+    `(Q, R, A, B, β)` without cross term (`N = 0`) — so `lq_update_completes_square` and
+    `lq_update_one_step_minimum` apply to it verbatim: the robust rule's `B` operator is the exact
+    one-period minimisation. -/
+theorem rblq_b_operator_is_lq_update (sol : M K → M K → Option (M K)) (hsol : SolSpec sol k)
+    (lq : LQ K) (h : LQDim lq n k j) (hN : toMat k n lq.N = 0) (P : M K) (hP : Dim P n n) (d : K)
+    (F P' F2 : M K) (v2 : Val K)
+    (hb : rblqB sol lq false P = some (F, P')) (hu : lqUpdate sol lq ⟨P, d⟩ = some (F2, v2)) :
+    toMat k n F2 = toMat k n F ∧ toMat n n v2.P = toMat n n P' := by
+  obtain ⟨_, _, mF, mP', V, hV1, _⟩ := rblqB_toMat sol hsol h hP hb
+  have hv : Dim (⟨P, d⟩ : Val K).P n n := hP
+  obtain ⟨_, _, mF2, mP2, _, _⟩ := lqUpdate_toMat sol hsol h hv hu
+  simp only at mF2 mP2
+  rw [lqS2_toMat h hP, hN, add_zero] at mF2 mP2
+  have e : toMat k n F2 = toMat k n F := by
+    calc toMat k n F2 = (V * toMat k k (lqS1 lq P)) * toMat k n F2 := by rw [hV1, Matrix.one_mul]
+      _ = V * (toMat k k (lqS1 lq P) * toMat k n F2) := by rw [Matrix.mul_assoc]
+      _ = V * (toMat k k (lqS1 lq P) * toMat k n F) := by rw [mF2, mF]
+      _ = (V * toMat k k (lqS1 lq P)) * toMat k n F := by rw [Matrix.mul_assoc]
+      _ = toMat k n F := by rw [hV1, Matrix.one_mul]
+  refine ⟨e, ?_⟩
+  rw [mP2, mP', e, lqS3_toMat h hP]
+
+/-- non-vacuity: both operators run on the scalar instance and agree (`F = 1/3`, `P_new = 4/3`). -/
+example : ((rblqB sol1 (⟨M.ofRows [[1]], M.ofRows [[1]], M.ofRows [[1]], M.ofRows [[1]], M.ofRows [[1]],
+      M.ofRows [[0]], 1 / 2⟩ : LQ ℚ) false (M.ofRows [[1]])).map (fun r => (r.1.get 0 0, r.2.get 0 0)),
+    (lqUpdate sol1 (⟨M.ofRows [[1]], M.ofRows [[1]], M.ofRows [[1]], M.ofRows [[1]], M.ofRows [[1]],
+      M.ofRows [[0]], 1 / 2⟩ : LQ ℚ) ⟨M.ofRows [[1]], 0⟩).map (fun r => (r.1.get 0 0, r.2.P.get 0 0)))
+    = (some (1 / 3, 4 / 3), some (1 / 3, 4 / 3)) := by decide +kernel
+
+end rblq
+
+section stationary
+variable {K : Type} [Field K] [DecidableEq K] {n k j : ℕ}
+
+/-- **stationary_is_fixed_point** (lines 234-255). Let `P` be what the Riccati solver returned for the
+    scaled system `A0 = sA`, `B0 = sB`, `s² = β` (lines 238-239), i.e. a solution of the equation
+    `solve_discrete_riccati` solves (its form in property C06, `riccati_fixed_point_iff`):
+    `P = A0'PA0 − (N + B0'PA0)'(Q + B0'PB0)^{-1}(N + B0'PA0) + R`. Then the `(P, F, d)` returned by
+    `stationary_values` is a fixed point of `update_values`: one more update from `(P, d)` returns the
+    same policy `F`, the same matrix `P` and, for `β ≠ 1`, the same constant `d`. -/
+theorem stationary_is_fixed_point (sol : M K → M K → Option (M K)) (hsol : SolSpec sol k)
+    (lq : LQ K) (h : LQDim lq n k j) (P : M K) (hP : Dim P n n) (F : M K) (d : K)
+    (hst : lqStationary sol lq P = some (F, d)) (s : K) (hs : s * s = lq.beta)
+    (Si : Matrix (Fin k) (Fin k) K)
+    (hSi : Si * (toMat k k lq.Q + (s • toMat n k lq.B)ᵀ * toMat n n P * (s • toMat n k lq.B)) = 1)
+    (hric : toMat n n P = (s • toMat n n lq.A)ᵀ * toMat n n P * (s • toMat n n lq.A)
+        - (toMat k n lq.N + (s • toMat n k lq.B)ᵀ * toMat n n P * (s • toMat n n lq.A))ᵀ * Si
+          * (toMat k n lq.N + (s • toMat n k lq.B)ᵀ * toMat n n P * (s • toMat n n lq.A))
+        + toMat n n lq.R)
+    (F' : M K) (v' : Val K) (hu : lqUpdate sol lq ⟨P, d⟩ = some (F', v')) :
+    F' = F ∧ toMat n n v'.P = toMat n n P ∧ (lq.beta ≠ 1 → v'.d = d) := by
+  have hv : Dim (⟨P, d⟩ : Val K).P n n := hP
+  obtain ⟨_, _, hF, hP', _, _⟩ := lqUpdate_toMat sol hsol h hv hu
+  simp only at hF hP'
+  have eS1 : toMat k k (lqS1 lq P)
+      = toMat k k lq.Q + (s • toMat n k lq.B)ᵀ * toMat n n P * (s • toMat n k lq.B) := by
+    rw [lqS1_toMat h hP, ← hs]
+    simp only [transpose_smul, Matrix.smul_mul, Matrix.mul_smul, smul_smul, Matrix.mul_assoc]
+  have eS2 : toMat k n (lqS2 lq P)
+      = toMat k n lq.N + (s • toMat n k lq.B)ᵀ * toMat n n P * (s • toMat n n lq.A) := by
+    rw [lqS2_toMat h hP, ← hs, add_comm]
+    simp only [transpose_smul, Matrix.smul_mul, Matrix.mul_smul, smul_smul, Matrix.mul_assoc]
+  have eS3 : toMat n n (lqS3 lq P) = (s • toMat n n lq.A)ᵀ * toMat n n P * (s • toMat n n lq.A) := by
+    rw [lqS3_toMat h hP, ← hs]
+    simp only [transpose_smul, Matrix.smul_mul, Matrix.mul_smul, smul_smul, Matrix.mul_assoc]
+  rw [eS1, eS2] at hF
+  rw [eS2, eS3] at hP'
+  have hFm : toMat k n F' = Si * (toMat k n lq.N + (s • toMat n k lq.B)ᵀ * toMat n n P * (s • toMat n n lq.A)) := by
+    rw [← hF, ← Matrix.mul_assoc, hSi, Matrix.one_mul]
+  refine ⟨?_, ?_, ?_⟩
+  · unfold lqStationary at hst
+    unfold lqUpdate at hu
+    simp only at hu
+    cases hsol' : sol (lqS1 lq P) (lqS2 lq P) with
+    | none => rw [hsol'] at hst; cases hst
+    | some X =>
+      rw [hsol'] at hst hu
+      simp only [Option.some.injEq, Prod.mk.injEq] at hst hu
+      rw [← hu.1, ← hst.1]
+  · rw [hP', hFm]
+    conv_rhs => rw [hric]
+    simp only [Matrix.mul_assoc]
+    abel
+  · intro hb
+    unfold lqStationary at hst
+    unfold lqUpdate at hu
+    simp only at hu
+    cases hsol' : sol (lqS1 lq P) (lqS2 lq P) with
+    | none => rw [hsol'] at hst; cases hst
+    | some X =>
+      rw [hsol'] at hst hu
+      simp only [Option.some.injEq, Prod.mk.injEq] at hst hu
+      rw [← hu.2]
+      simp only [lqNewD]
+      have hd := hst.2
+      unfold lqStatD at hd
+      have hne : (lq.beta == 1) = false := by simpa using hb
+      rw [hne] at hd
+      simp only [Bool.false_eq_true, if_false] at hd
+      have h1 : (1 : K) - lq.beta ≠ 0 := fun hc => hb (by
+        have := sub_eq_zero.mp hc; exact this.symm)
+      rw [← hd]
+      field_simp
+      ring
+
+/-- non-vacuity: `Q = 2`, `R = A = B = 1`, `N = 0`, `C = 0`, `β = 1` (so `s = 1`): `P = 2` solves the Riccati
+    equation `P = P − P²/(2+P) + 1` (second example), and `stationary_values` returns `F = 1/2`, `d = 0`. -/
+example : (lqStationary sol1 (⟨M.ofRows [[2]], M.ofRows [[1]], M.ofRows [[1]], M.ofRows [[1]], M.ofRows [[0]],
+    M.ofRows [[0]], 1⟩ : LQ ℚ) (M.ofRows [[2]])).map (fun r => (r.1.get 0 0, r.2)) = some (1 / 2, 0) := by
+  decide +kernel
+example : ((2 : ℚ) = 1 * 2 * 1 - (0 + 1 * 2 * 1) * (1 / (2 + 1 * 2 * 1)) * (0 + 1 * 2 * 1) + 1) := by norm_num
+
+end stationary
+
+section sequence
+variable {α : Type} [Zero α] [One α] [Add α] [Sub α] [Mul α] [Div α] [Neg α] [BEq α]
+
+/-- **policy_order** (every horizon `T`, every scalar type — also the `Float` reading the driver runs).
+    If `compute_sequence` of a finite-horizon instance returns paths `xs`, `us`, then with
+    `T = horizon Tfin ts` (lines 300-301): `xs` has `T+1` and `us` has `T` entries, `x_0 = x0`, and for
+    every `t < T` the control is `u_t = -F_t x_t` where `F_t` is the policy produced by call number
+    `T - t` of `update_values` starting from `(Rf, 0)` (`polAt … (T-1-t)`: the list is built backwards
+    and popped from its end), and `x_{t+1} = A x_t + B u_t + (C W)[:, t+1]`. -/
+theorem policy_order (sol : M α → M α → Option (M α)) (lq : LQ α) (Rf : M α) (Tfin ts : Nat)
+    (x0 W : M α) (xs us : List (M α)) (hT : horizon Tfin ts ≠ 0)
+    (h : computeSequence sol lq Rf Tfin ts x0 W = .ok xs us) :
+    xs.length = horizon Tfin ts + 1 ∧ us.length = horizon Tfin ts ∧ xs[0]? = some x0 ∧
+    ∀ t, t < horizon Tfin ts → ∃ xt ut Ft,
+      xs[t]? = some xt ∧ us[t]? = some ut ∧
+      polAt sol lq ⟨Rf, 0⟩ (horizon Tfin ts - 1 - t) = some Ft ∧ ut = ctrl Ft xt ∧
+      xs[t + 1]? = some (nextX lq.A lq.B xt ut (col (mmul lq.C W) (t + 1))) := by
+  unfold computeSequence at h
+  simp only at h
+  cases hb : lqBackward sol lq (horizon Tfin ts) ⟨Rf, 0⟩ [] with
+  | none => rw [hb] at h; cases h
+  | some r =>
+    obtain ⟨pol, vT⟩ := r
+    rw [hb] at h
+    simp only at h
+    obtain ⟨_, L, hL, hlen, hpol⟩ := lqBackward_spec sol lq _ _ _ _ _ hb
+    simp only [List.nil_append] at hL
+    subst hL
+    rw [simulate_eq lq pol _ x0 W hlen hT] at h
+    simp only [SeqOut.ok.injEq] at h
+    obtain ⟨hx, hu⟩ := h
+    have hne : pol.reverse ≠ [] := by
+      intro hc
+      have : pol = [] := by simpa using hc
+      subst this; simp at hlen; exact hT hlen.symm
+    obtain ⟨l1, l2, h0, hstep⟩ := closedLoop_spec lq.A lq.B (col (mmul lq.C W)) pol.reverse x0 hne
+    simp only [hx, hu, List.length_reverse, hlen] at l1 l2 hstep h0
+    refine ⟨l1, l2, h0, ?_⟩
+    intro t ht
+    obtain ⟨xt, ut, Ft, e1, e2, e3, e4, e5⟩ := hstep t ht
+    refine ⟨xt, ut, Ft, e1, e2, ?_, e4, e5⟩
+    rw [hpol _ (by omega), ← hlen, ← e3]
+    rw [List.getElem?_reverse (by omega)]
+
+/-- **policy_order_inf.** In the infinite-horizon case every control is `u_t = -F x_t` with the
+    stationary `F`, and the same law of motion holds, for every `T = ts_length` (100 when absent). -/
+theorem policy_order_inf (lq : LQ α) (F : M α) (ts : Nat) (x0 W : M α) (xs us : List (M α))
+    (h : computeSequenceInf lq F ts x0 W = .ok xs us) :
+    xs.length = horizon 0 ts + 1 ∧ us.length = horizon 0 ts ∧ xs[0]? = some x0 ∧
+    ∀ t, t < horizon 0 ts → ∃ xt ut,
+      xs[t]? = some xt ∧ us[t]? = some ut ∧ ut = ctrl F xt ∧
+      xs[t + 1]? = some (nextX lq.A lq.B xt ut (col (mmul lq.C W) (t + 1))) := by
+  have hT : horizon 0 ts ≠ 0 := by
+    unfold horizon; simp only [ne_eq, not_true_eq_false, if_false]; split <;> omega
+  unfold computeSequenceInf at h
+  simp only at h
+  rw [simulate_eq lq _ _ x0 W (List.length_replicate) hT] at h
+  simp only [SeqOut.ok.injEq, List.reverse_replicate] at h
+  obtain ⟨hx, hu⟩ := h
+  have hne : List.replicate (horizon 0 ts) F ≠ [] := by
+    intro hc
+    have := congrArg List.length hc
+    simp at this; exact hT this
+  obtain ⟨l1, l2, h0, hstep⟩ := closedLoop_spec lq.A lq.B (col (mmul lq.C W)) _ x0 hne
+  simp only [hx, hu, List.length_replicate] at l1 l2 hstep h0
+  refine ⟨l1, l2, h0, ?_⟩
+  intro t ht
+  obtain ⟨xt, ut, Ft, e1, e2, e3, e4, e5⟩ := hstep t ht
+  have : Ft = F := by
+    rw [List.getElem?_replicate] at e3
+    simp only [ht, if_true, Option.some.injEq] at e3
+    exact e3.symm
+  subst this
+  exact ⟨xt, ut, e1, e2, e4, e5⟩
+
+/-- non-vacuity: a 3-period scalar instance runs, and its controls are read off the policies in reverse:
+    `polAt 2` (backward step 3) is applied at time 0. -/
+example :
+    (match computeSequence (solve : M ℚ → M ℚ → Option (M ℚ))
+        ⟨M.ofRows [[1]], M.ofRows [[1]], M.ofRows [[1]], M.ofRows [[1]], M.ofRows [[1]], M.ofRows [[0]], 1 / 2⟩
+        (M.ofRows [[1]]) 3 0 (M.ofRows [[1]]) (M.ofRows [[0, 1, 0, 1]]) with
+      | .ok xs us => (xs.length, us.length)
+      | _ => (0, 0)) = (4, 3) := by decide +kernel
+
+end sequence
 
 end QE.C07
